@@ -74,6 +74,14 @@ theorem gen_schema_covered :
     GitBugModel.Gen.Resolvers.programs.any (fun p => p.1 == "upload") = true := by
   decide
 
+/-- "authored by that user": every mutating call of a resolver other than the final `Commit`
+(and the blob store of the upload endpoint) is handed the value `UserFromCtx` returned -/
+theorem gen_authored :
+    GitBugModel.Gen.Resolvers.mutatingCalls.all (fun p =>
+      p.2.all (fun c => c.2 || c.1 == "Commit" || c.1 == "StoreData")) = true ∧
+    GitBugModel.Gen.Resolvers.mutatingCalls.any (fun p => p.2.any (fun c => c.2)) = true := by
+  decide
+
 /-! ## non-vacuity -/
 
 example : gated [.read "getBug", .gate, .mutate "AddCommentRaw", .mutate "Commit", .read "Snapshot"] = true ∧
